@@ -134,13 +134,27 @@ def _note_contents(stream, contents):
             contents.append(None)
 
 
-def apply_ops(stream, ops, contents=None):
+def apply_ops(stream, ops, contents=None, resolved=None):
     import pydyf
     box = SimpleNamespace(element_tag='div', element=None)
+    cps = []
     for o in ops:
         if contents is not None:
             _note_contents(stream, contents)
         k = o[0]
+        if k == 'cp':                       # checkpoint = stream.checkpoint(): no effect on the stream
+            cps.append(stream.checkpoint())
+            continue
+        if k == 'rb':                       # stream.rollback(one of the checkpoints taken so far)
+            if not cps:
+                continue
+            cp = cps[o[1] % len(cps)]
+            stream.rollback(cp)
+            if resolved is not None:
+                resolved.append(['rb', cp[0], cp[1], cp[2]['ExtGState']])
+            continue
+        if resolved is not None:
+            resolved.append(o)
         if k == 'push':
             stream.push_state()
         elif k == 'pop':
@@ -192,15 +206,16 @@ def apply_ops(stream, ops, contents=None):
 def stream_direct(case):
     """case: dict(mark, keys0, ops) -> dict(state read back) or {'raised': type} when a call raises."""
     stream, resources = _new_stream(case['mark'], case['keys0'])
-    contents = []
+    contents, resolved = [], []
     try:
-        apply_ops(stream, case['ops'], contents)
+        apply_ops(stream, case['ops'], contents, resolved)
     except (IndexError, AssertionError) as exc:
-        return {'raised': type(exc).__name__}
+        return {'raised': type(exc).__name__, 'ops': resolved}
     _note_contents(stream, contents)
     ctable = _color_bytes()
     f = lambda t: None if t is None else [FONTS.index(t[0]), SIZES.index(t[1])]
     return {
+        'ops': resolved,
         'toks': [_decode_item(i, ctable, c) for i, c in zip(stream.stream, contents)],
         'ctms': [[int(v) for v in m.values] for m in stream._ctm_stack],
         'col': _cache_color(stream._current_color), 'cols': _cache_color(stream._current_color_stroke),
@@ -218,7 +233,7 @@ _REC = None
 _INSTALLED = False
 STATEFUL = ('push_state', 'pop_state', 'begin_text', 'end_text', 'set_color', 'set_alpha', 'set_font_size',
             'set_state', 'transform', 'set_text_matrix', 'begin_marked_content', 'end_marked_content',
-            'set_color_space', 'set_color_special')
+            'set_color_space', 'set_color_special', 'checkpoint', 'rollback')
 # operator keywords for `Tok k` of recorded traces (k = index); anything else is appended on the fly
 KWS = ['re', 'f', 'W', 'n', 'm', 'l', 'S', 'w', 'TJ', 'Do', 'sh', 'h', 'd', 'Td', 'Ts', 'c', 'B', 'J', 'M', 'Tj',
        'f*', 'W*', 'B*', 'b', 'b*', 's', 'v', 'y', 'j', 'Tr', 'EI']
@@ -240,6 +255,9 @@ class Trace(object):
         self.sizes = {}
         self.ncm = 0
         self.ntm = 0
+        self.cps = []                        # (position in self.ops, checkpoint tuple) of every checkpoint() call
+        self.dead = set()                    # indices of self.ops erased by a rollback (the failed drawings)
+        self.last_result = None
         self.mark = bool(stream._mark)
         eg = stream._resources['ExtGState']
         self.known = list(eg.keys())
@@ -330,6 +348,19 @@ class Trace(object):
         if raised:
             self.flags.add('raised:' + raised)
         g = self.generic
+        if name == 'checkpoint':
+            self.cps.append((len(self.ops), self.last_result))
+            return
+        if name == 'rollback':
+            cp = a[0] if a else k.get('checkpoint')
+            start = [pos for pos, c in self.cps if c is cp]
+            if not start or not isinstance(cp, tuple):
+                self.flags.add('unmodelled-rollback-of-unknown-checkpoint')
+                start = [len(self.ops)]
+            self.dead.update(range(start[-1], len(self.ops) + 1))
+            self.ops.append(['rb', cp[0] - self.initial_len, cp[1], cp[2].get('ExtGState', 0)])
+            self.label_new(g)
+            return
         if name == 'push_state':
             self.ops.append(['push']); self.label_new(g)
         elif name == 'pop_state':
@@ -414,21 +445,27 @@ class Trace(object):
     def result(self):
         s = self.stream
         self.before()
-        ops, i = [], 0
+        ops, kops, i = [], [], 0
+
+        def out(o, idx):
+            ops.append(o)
+            if idx not in self.dead:
+                kops.append(o)
         while i < len(self.ops):
             o = self.ops[i]
             if o[0] == 'pattern-cs' and i + 1 < len(self.ops) and self.ops[i + 1][0] == 'pattern-scn' \
                     and self.ops[i + 1][1] == o[1]:
-                ops.append(['pattern', o[1], self.ops[i + 1][2]]); i += 2
+                out(['pattern', o[1], self.ops[i + 1][2]], i); i += 2
                 continue
             if o[0] in ('pattern-cs', 'pattern-scn'):
                 self.flags.add('unmodelled-unpaired-pattern')
-                ops.append(['tok', 0]); i += 1
+                out(['tok', 0], i); i += 1
                 continue
-            ops.append(o); i += 1
+            out(o, i); i += 1
         if len(self.labels) + self.initial_len != len(s.stream):
             self.flags.add('foreign-append')
-        return {'index': self.index, 'mark': self.mark, 'keys0': self.keys0, 'ops': ops, 'toks': self.labels,
+        return {'index': self.index, 'mark': self.mark, 'keys0': self.keys0, 'ops': ops, 'kops': kops, 'rollbacks': len(self.ops) - len([1 for o in self.ops if o[0] != 'rb']),
+                'toks': self.labels,
                 'flags': sorted(self.flags), 'ctm_depth': len(s._ctm_stack), 'id': getattr(s, 'id', None),
                 'nalpha': len(self.alphas)}
 
@@ -478,7 +515,8 @@ def _install_recorder():
                 tr.depth = 1
                 raised = None
                 try:
-                    return orig(self, *a, **k)
+                    tr.last_result = orig(self, *a, **k)
+                    return tr.last_result
                 except BaseException as exc:
                     raised = type(exc).__name__
                     raise
